@@ -52,7 +52,12 @@ def run(m: Model, r: Report, tier: str) -> None:
 
     tr = find_try_with_run(ep)
     # normal path
-    norm = [s for s in tr.body if isinstance(s, ast.Assign) and ast.unparse(s.targets[0]) == "exit_code"]
+    # the local that carries the exit code: the name entry_point returns after the guarded region
+    ecs = {n.value.id for n in walk_no_nested(ep.node) if isinstance(n, ast.Return) and isinstance(n.value, ast.Name)}
+    if len(ecs) != 1:
+        raise AnalysisError(f"{ep.qualname}: cannot identify the exit code variable (returned names: {sorted(ecs)})")
+    EC = ecs.pop()
+    norm = [s for s in tr.body if isinstance(s, ast.Assign) and ast.unparse(s.targets[0]) == EC]
     r.check(len(norm) == 1 and ast.unparse(norm[0].value) == "await self.run()", "R1", f"{ep.qualname}#normal",
             "the normal path does not take run()'s return value as exit code", loc=ep.loc)
     handlers = {ast.unparse(h.type) if h.type is not None else "<bare>": h for h in tr.handlers}
@@ -64,7 +69,7 @@ def run(m: Model, r: Report, tier: str) -> None:
         out = []
         for s in stmts:
             for n in ast.walk(s):
-                if isinstance(n, ast.Assign) and ast.unparse(n.targets[0]) == "exit_code":
+                if isinstance(n, ast.Assign) and ast.unparse(n.targets[0]) == EC:
                     out.append(n.value)
         return out
 
@@ -109,14 +114,14 @@ def run(m: Model, r: Report, tier: str) -> None:
         r.check(ok, "R1", f"{ep.qualname}#Exception",
                 f"expected-exception mapping: {detail}; documented: instance of any CATCHED_EXCEPTIONS class (incl. subclasses) -> 74, else 70", loc=ep.loc)
     rets = [n for n in walk_no_nested(ep.node) if isinstance(n, ast.Return)]
-    r.check(any(ast.unparse(x.value) == "exit_code" for x in rets if x.value is not None) and
-            all(ast.unparse(x.value) in ("exit_code", "exitcodes.OSFILE") for x in rets if x.value is not None),
+    r.check(any(ast.unparse(x.value) == EC for x in rets if x.value is not None) and
+            all(ast.unparse(x.value) in (EC, "exitcodes.OSFILE") for x in rets if x.value is not None),
             "R1", f"{ep.qualname}#return", f"entry_point returns {[ast.unparse(x.value) for x in rets if x.value]}", loc=ep.loc)
 
     # ---------------------------------------------------------------- R2
     fb = tr.finalbody
     markers = [
-        ("exit_code", lambda x: isinstance(x, ast.Assign) and ast.unparse(x.targets[0]) == "self.run_meta.exit_code" and ast.unparse(x.value) == "exit_code"),
+        ("exit_code", lambda x: isinstance(x, ast.Assign) and ast.unparse(x.targets[0]) == "self.run_meta.exit_code" and ast.unparse(x.value) == EC),
         ("end_time", lambda x: isinstance(x, ast.Assign) and ast.unparse(x.targets[0]) == "self.run_meta.end_time"),
         ("db_finish", lambda x: isinstance(x, ast.Call) and ast.unparse(x.func) == "self._db_finish_run_meta"),
         ("meta_json", lambda x: isinstance(x, ast.Call) and isinstance(x.func, ast.Attribute) and x.func.attr == "write_text" and "FileNames.META" in ast.unparse(x) and "self.run_meta.json()" in ast.unparse(x)),
